@@ -276,7 +276,7 @@ pub fn parsegen(prop: &str, seed: u64, runs: usize) -> Vec<J> {
                 "bits(65,1)", "bits(1)", "bits(1,1) bits(1,", "C C", "C C C", "0 C", "(1", "(1 +", "(1 + )", "1 (", "1 (1", "1 (1))", "x", "x y", "X Z", "let", "let a", "let a =", "let a = ;", "let a = 1", "let a = 1;",
                 "let a = 1; 1", "let 1 = 1;", "let a 1;", "declare", "declare a", "declare a = 1", "declare a = 1;", "declare a = 1; 2", "resetRandom", "resetRandom;", "resetRandom; 1", "loop", "loop(", "loop(i",
                 "loop(i,", "loop(i,1", "loop(i,1)", "loop(i,1) 1", "loop(1,1)", "while", "while(", "while(1", "while(1)", "while(1) 1", "end", "end loop", "end while", "end foo", "end loop 1", "(ite(1,2)) 1",
-                "(foo(1)) 1", "(random()) 1", "(random(1,2)) 1", "(1 ! 2) 1", "(~) 1", "(-) 1", "(1 +* 2) 1", "program", "program x", "init", "0x 1", "0b2 1", "08 1", "99999999999999999999 1", "$ 1", "1 $", "é 1", "1 é",
+                "declare V = 1;\ndeclare V = 2;", "declare V = 1;\n1 1\ndeclare V = 2;", "let a = 1;\ndeclare a = 2;", "(foo(1)) 1", "(random()) 1", "(random(1,2)) 1", "(1 ! 2) 1", "(~) 1", "(-) 1", "(1 +* 2) 1", "program", "program x", "init", "0x 1", "0b2 1", "08 1", "99999999999999999999 1", "$ 1", "1 $", "é 1", "1 é",
             ];
             const ENDS: &[&str] = &["", " ", "   ", "\t# c", " # é", "#日本", "\r\n", "\n", " \n", "\n\n", " # c\n", "\r"];
             for (i, l) in LINES.iter().enumerate() {
@@ -290,6 +290,41 @@ pub fn parsegen(prop: &str, seed: u64, runs: usize) -> Vec<J> {
                         let t = format!("A B\n{open}{l}{e}{tail}");
                         push(&mut out, prop, &t, None, 0, "error sites x line ends");
                     }
+                }
+            }
+            // headers of 63..70 columns (past one machine word), rows with C / X / Z / bits in every region of the row, valid and
+            // one entry short or long
+            {
+                let mut rng = StdRng::seed_from_u64(seed ^ 0x64c0);
+                for k in 0..24 {
+                    let n = 63 + k % 8;
+                    let header: Vec<String> = (0..n).map(|i| format!("s{i}")).collect();
+                    let mut t = header.join(" ");
+                    t.push('\n');
+                    for r in 0..3 {
+                        let mut es: Vec<String> = vec![];
+                        let mut c = 0;
+                        let want = match (k + r) % 4 { 0 => n - 1, 1 => n + 1, _ => n };
+                        while c < want {
+                            let left = want - c;
+                            let e = match rng.gen_range(0..12) {
+                                0 | 1 => "C".to_string(),
+                                2 => "X".to_string(),
+                                3 => "Z".to_string(),
+                                4 if left >= 3 => { c += 2; "bits(3,5)".to_string() }
+                                5 if left >= 64 => { c += 63; "bits(64,(0-1))".to_string() }
+                                6 => "(1+1)".to_string(),
+                                _ => format!("{}", c % 2),
+                            };
+                            es.push(e);
+                            c += 1;
+                        }
+                        // a clock entry in the last columns in any case
+                        if r == 0 && es.len() > 2 { let l = es.len(); es[l - 1] = "C".into(); es[l - 2] = "C".into(); }
+                        t.push_str(&es.join(" "));
+                        t.push('\n');
+                    }
+                    push(&mut out, prop, &t, None, 0, "more than 64 columns");
                 }
             }
             for run in 0..runs {
